@@ -82,16 +82,20 @@ func checkRevert(shape string, sym, force, atEffective bool) {
 		}
 		return final[k]
 	}
+	debited := map[key]bool{} // the (account, asset) pairs the revert takes funds from
 	for _, p := range ps {
 		// reverse posting: destination pays the source back
 		d := touch(p.Destination, p.Asset)
 		d.Sub(d, p.Amount)
+		debited[key{p.Destination, p.Asset}] = true
 		s := touch(p.Source, p.Asset)
 		s.Add(s, p.Amount)
 	}
+	// "would leave an account negative": an account the revert takes funds from ends below zero (an account that
+	// only receives funds back cannot be made negative by the revert, even if it was negative before)
 	wouldGoNegative := false
 	for k, v := range final {
-		if k.acc != "world" && v.Sign() < 0 {
+		if k.acc != "world" && debited[k] && v.Sign() < 0 {
 			wouldGoNegative = true
 		}
 	}
